@@ -125,6 +125,11 @@ def run(eng, ctx):
     for e, lexpr in label_exprs:
         alts = leaves(lexpr)
         gets = set()
+        # "a given signal ID is labelled identically wherever it occurs": the label is a function of the ID (and the option) alone - nothing carried
+        # over from earlier iterations of the scan (a default that remembers the previous entry, a running index into a work list, ...)
+        carried = [st for st in subterms(lexpr) if isinstance(st, tuple) and st and st[0] in ("loop", "loopout", "havoc", "upd")]
+        ctx.check(not carried, "C16.D2", mb.qualname, "label is a function of the signal ID", expected="table entry of this ID (or the N/A default) - independent of the IDs scanned before it",
+                  found=("depends on " + show(carried[0])[:60] + ", a value carried over from earlier iterations") if carried else "no loop-carried value", **eng.loc(mb, e.node))
         for g, leaf in alts:
             ok = leaf[0] == "idx" and is_const(leaf[2]) and leaf[1][0] == "call" and leaf[1][2][0] == "attr" and leaf[1][2][2] == "get"
             onlyopt = all(c[0] == "cmp" and LF(c[2]) and is_const(c[3]) for c, _ in g)
